@@ -43,6 +43,17 @@ const INCLUDE_NOTIFICATIONS: bool = true;
 // ---------------------------------------------------------------------------------------------------------------
 // Argument / return types.
 
+/// A "request struct" whose members are all optional (so it also deserialises from any object that has none of them)
+#[derive(Serialize, Deserialize, Clone, Debug, PartialEq, Default)]
+pub struct Filter {
+	#[serde(default)]
+	pub min: Option<i64>,
+	#[serde(default)]
+	pub max: Option<i64>,
+	#[serde(default)]
+	pub tag: Option<String>,
+}
+
 #[derive(Serialize, Deserialize, Clone, Debug, PartialEq)]
 pub struct Inner {
 	pub id: i64,
@@ -102,7 +113,7 @@ impl From<CustomErr> for jsonrpsee::types::ErrorObjectOwned {
 
 #[allow(non_snake_case)]
 mod api {
-	use super::{CustomErr, Inner, Item, Kind, Rec, Tagged};
+	use super::{CustomErr, Filter, Inner, Item, Kind, Rec, Tagged};
 	use jsonrpsee::ResponsePayload;
 	use jsonrpsee::core::{RpcResult, SubscriptionResult};
 	use jsonrpsee::proc_macros::rpc;
@@ -175,6 +186,11 @@ mod api {
 		fn m_arr(&self, nonce: u64, x: u64, y: u64) -> RpcResult<Vec<u64>>;
 		#[method(name = "mNote", param_kind = map)]
 		async fn m_note(&self, nonce: u64, payload: Rec);
+		/// by-name methods with exactly ONE parameter whose type would also accept the enclosing params object
+		#[method(name = "onlyFilter", param_kind = map)]
+		async fn only_filter(&self, filter: Filter) -> RpcResult<Filter>;
+		#[method(name = "onlyLabels", param_kind = map)]
+		fn only_labels(&self, labels: HashMap<String, i64>) -> RpcResult<HashMap<String, i64>>;
 	}
 
 	/// namespace with `/`
@@ -448,6 +464,16 @@ impl NamedServer for Srv {
 	async fn m_note(&self, nonce: u64, payload: Rec) {
 		rec!(self, "Named::m_note", nonce, payload);
 	}
+	async fn only_filter(&self, filter: Filter) -> RpcResult<Filter> {
+		rec!(self, "Named::only_filter", filter);
+		Ok(Filter { min: filter.max, max: filter.min, tag: Some(format!("{}:{}", self.salt, filter.tag.unwrap_or_default())) })
+	}
+	fn only_labels(&self, labels: HashMap<String, i64>) -> RpcResult<HashMap<String, i64>> {
+		rec!(self, "Named::only_labels", labels);
+		let mut out = labels;
+		out.insert("salt".into(), self.salt as i64);
+		Ok(out)
+	}
 }
 
 #[async_trait]
@@ -627,6 +653,7 @@ enum Ty {
 	Tagged,
 	Rec,
 	MapI64,
+	Filter,
 	VecKind,
 	/// small count of subscription items
 	Count,
@@ -739,6 +766,8 @@ static METHODS: &[MD] = &[
 	md("Named::m_opt", "map.mOpt", &[], &[NONCE, p("a", Ty::Str), o("b", Ty::I64), o("c", Ty::Rec)], ByName, "async"),
 	md("Named::m_arr", "map.mArr", &[], &[NONCE, p("x", Ty::U64), p("y", Ty::U64)], Array, "sync"),
 	note(md("Named::m_note", "map.mNote", &[], &[NONCE, p("payload", Ty::Rec)], ByName, "async")),
+	md("Named::only_filter", "map.onlyFilter", &[], &[p("filter", Ty::Filter)], ByName, "async"),
+	md("Named::only_labels", "map.onlyLabels", &[], &[p("labels", Ty::MapI64)], ByName, "sync"),
 	md("Chain::head", "chain/head", &["chain_head"], &[NONCE, p("h", Ty::Tagged)], Array, "async"),
 	md("Chain::ping", "chain/ping", &[], &[], Array, "blocking"),
 	md("Chain::kinds", "chain/kinds", &[], &[NONCE, p("v", Ty::VecKind), p("m", Ty::MapI64)], Array, "sync"),
@@ -874,6 +903,7 @@ fn gen_ty(r: &mut Rng, ty: Ty) -> Value {
 		Ty::Tagged => v(&g_tagged(r)),
 		Ty::Rec => v(&g_rec(r, 2)),
 		Ty::MapI64 => v(&g_map(r)),
+		Ty::Filter => v(&Filter { min: if r.bool() { Some(g_i64(r)) } else { None }, max: if r.bool() { Some(g_i64(r)) } else { None }, tag: if r.bool() { Some(g_str(r)) } else { None } }),
 		Ty::VecKind => v(&g_vec(r, 4, g_kind)),
 		Ty::Count => v(&(r.below(5) as u8)),
 		Ty::Mode => v(&(if r.chance(1, 5) { 2u8 } else { 0u8 })),
@@ -900,6 +930,7 @@ fn roundtrips(ty: Ty, val: &Value) -> bool {
 		Ty::Tagged => rt::<Tagged>(val),
 		Ty::Rec => rt::<Rec>(val),
 		Ty::MapI64 => rt::<HashMap<String, i64>>(val),
+		Ty::Filter => rt::<Filter>(val),
 		Ty::VecKind => rt::<Vec<Kind>>(val),
 		Ty::Count | Ty::Mode => rt::<u8>(val),
 	}
@@ -968,6 +999,15 @@ fn expected(tag: &str, salt: u64, a: &[Value]) -> Want {
 		"Pos::opt3" => Want::Ok(v(&ret::opt3(salt, &fv(&a[1]), &fv(&a[2]), &fv(&a[3])))),
 		"Named::m1" => Want::Ok(v(&(fv::<i64>(&a[1]) ^ (salt as i64)))),
 		"Named::m2" => Want::Ok(v(&vec![fv::<String>(&a[2]), salt.to_string(), fv::<String>(&a[1])])),
+		"Named::only_filter" => {
+			let f = fv::<Filter>(&a[0]);
+			Want::Ok(v(&Filter { min: f.max, max: f.min, tag: Some(format!("{salt}:{}", f.tag.unwrap_or_default())) }))
+		}
+		"Named::only_labels" => {
+			let mut m = fv::<HashMap<String, i64>>(&a[0]);
+			m.insert("salt".into(), salt as i64);
+			Want::Ok(v(&m))
+		}
 		"Named::m3" => Want::Ok(v(&(fv::<Kind>(&a[1]), fv::<Tagged>(&a[2]), fv::<Vec<String>>(&a[3])))),
 		"Named::m_opt" => Want::Ok(v(&fv::<Option<Rec>>(&a[3]).map(|mut r| {
 			r.name = fv::<String>(&a[1]);
@@ -1402,6 +1442,8 @@ async fn typed_call<C: SubscriptionClientT + Sync>(c: &C, case: &Case, log: &Log
 		"Named::m_opt" => tc!(NamedClient::m_opt, u64, String, Option<i64>, Option<Rec>),
 		"Named::m_arr" => tc!(NamedClient::m_arr, u64, u64, u64),
 		"Named::m_note" => tc!(NamedClient::m_note, u64, Rec),
+		"Named::only_filter" => tc!(NamedClient::only_filter, Filter),
+		"Named::only_labels" => tc!(NamedClient::only_labels, HashMap<String, i64>),
 		"Chain::head" => tc!(ChainClient::head, u64, Tagged),
 		"Chain::ping" => tc!(ChainClient::ping),
 		"Chain::kinds" => tc!(ChainClient::kinds, u64, Vec<Kind>, HashMap<String, i64>),
